@@ -796,6 +796,9 @@ fn bad(ctx: &mut Ctx, op: &str) {
 }
 
 pub fn run_op(ctx: &mut Ctx, op: &str) {
+    if ctx.hang_limit_reached() {
+        return;
+    }
     let t = toks(op);
     match t.first().copied() {
         Some("part") => op_part(ctx, op, &t),
